@@ -3,7 +3,7 @@
 EXTENDS Integers, Sequences, FiniteSets, TLC, Json
 CONSTANTS MaxConns, MaxMsgs, MaxFaults
 VARIABLE s
-Kinds == {"panic", "bad", "badbody", "toodeep", "eof", "eofmid", "eofbody"}
+Kinds == {"panic", "bad", "badbody", "toodeep", "eof", "eofmid", "eofbody", "shortlen", "avplen4", "badw"}
 None == [kind |-> "none", pos |-> 0]
 FaultSets(k, m) == {f \in [1..k -> {None} \cup {[kind |-> kd, pos |-> p] : kd \in Kinds, p \in 1..m}] :
                       Cardinality({c \in 1..k : f[c].kind # "none"}) \in 1..MaxFaults}
